@@ -119,6 +119,9 @@ def scalar_dt(x, weak_to=None):
         return DT('c', 128), True
     if hasattr(x, 'dtype'):
         return as_dt(x.dtype), False
+    if isinstance(x, Sigma):
+        cplx = any(isinstance(t, (Cx, complex)) for (_b, t) in x.terms) or isinstance(x.plain, (Cx, complex))
+        return (DT('c', 128) if cplx else DT('f', 64)), True
     raise Unsupported('scalar dtype of %r' % type(x))
 
 
@@ -375,6 +378,29 @@ class Sigma:
 
     def __repr__(self):
         return '<Sigma %d terms>' % len(self.terms)
+
+
+_SIGMA_ATOMS = {}
+
+
+def sigma_atom(s):
+    """name the value of a real Sigma-term by an uninterpreted real constant, the same constant for alpha-equivalent sums
+    (bound indices renamed positionally).  Sound: it only gives the sum a name; used where a sum is a divisor."""
+    import hashlib
+    key = []
+    for (bounds, body) in s.terms:
+        if isinstance(body, (Cx, complex)):
+            raise Unsupported('complex Sigma as a divisor')
+        pairs = [(v.z, z3.Int('_sb%d' % k)) for k, (v, _lo, _hi) in enumerate(bounds)]
+        bz = body.z if isinstance(body, Sc) else z3.RealVal(body)
+        bs = z3.simplify(z3.substitute(bz, *pairs)).sexpr() if pairs else z3.simplify(bz).sexpr()
+        bd = tuple((str(getattr(lo, 'z', lo)), str(getattr(hi, 'z', hi))) for (_v, lo, hi) in bounds)
+        key.append((bd, bs))
+    pl = s.plain
+    key = (tuple(sorted(key)), str(getattr(pl, 'z', pl)))
+    if key not in _SIGMA_ATOMS:
+        _SIGMA_ATOMS[key] = SReal(z3.Real('sigma_' + hashlib.md5(repr(key).encode()).hexdigest()[:10]))
+    return _SIGMA_ATOMS[key]
 
 
 def _conj(t):
@@ -794,6 +820,8 @@ class SArr:
             return NotImplemented
         if hasattr(other, 'dtype') and not isinstance(other, (Sc, Cx)):
             other = other.item()
+        if isinstance(other, Sigma) and op == '/' and not rev:
+            other = sigma_atom(other)          # a sum as divisor: named by an atom (alpha-equivalent sums share it)
         dt = _op_dt(op, other, self) if rev else _op_dt(op, self, other)
         me = self._snapshot()
         if rev:
